@@ -79,7 +79,8 @@ Step ==
 
 Toggle(o, F(_)) ==
   /\ o \in Ops
-  /\ Len(hist) = 0 \/ hist[Len(hist)].op \notin {"enable", "disable"}
+  /\ (IF Len(hist) = 0 THEN TRUE ELSE hist[Len(hist)].op \notin {"enable", "disable"})
+  /\ Cardinality({i \in 1..Len(hist) : hist[i].op \in {"enable", "disable"}}) < 2   \* at most two toggles per path
   /\ S' = {[x EXCEPT !.m = MapBooks(x.m, F)] : x \in S}
   /\ hist' = Append(hist, [op |-> o])
   /\ UNCHANGED <<nsub, nstep>>
